@@ -90,7 +90,13 @@ BAD_VALUES = {
     "json_bytes_marker": ["x&bytes=3", "&bytes=", "&bytes=12", "a&bytes=1&bytes=2"],
 }
 BAD_CLASSES = ["str_type_prefix", "str_percent_hex", "str_type_prefix_invalid", "json_bytes_marker", "key_bytes",
-               "key_json_first", "key_client"]
+               "key_json_first", "key_client", "garbage_line"]
+
+# lines no encoder produces (line noise, a broken or foreign peer): they cannot be decoded, the receiver has to
+# survive them and go on with the next line.  Only lines whose end is known (nothing announces a payload).
+GARBAGE_LINES = ['c19_a?json={"k": ', 'c19_a?json={}x', "c19_a?x=1&bytes=zz", "c19_b?x=1&bytes=1&bytes=2",
+                 "c19_b?x=1&bytes=-3", "c19_b?x=1&bytes=", "\xff\xfe\x00garbage", "c19_c?k=\xc3\x28&\xa0=1", "//[bad",
+                 'c19_d?json={"a": [1, 2}', "c19_d?json={'a': 1}"]
 
 INTS = [0, 1, -1, 5, 7, 255, -128, 65535, 2 ** 31 - 1, 2 ** 31, -2 ** 63, 2 ** 64, 10 ** 30, -10 ** 18, 132990]
 FLOATS = [0.0, -0.0, 1.0, 2.0, -1.5, 0.1, 1e-320, 5e-324, 1e-7, 1e16, 1e22, 1.7976931348623157e308, float("inf"),
@@ -220,6 +226,13 @@ def str_value_class(v):
 
 def is_json_form(kw):
     return any(isinstance(v, (dict, list)) for v in kw.values())
+
+
+def op_classes(op):
+    """Hazard classes of one workload operation (a message, or a raw garbage line)."""
+    if op.get("raw") is not None:
+        return {"garbage_line": []}
+    return bad_classes(op["kw"])
 
 
 def bad_classes(kw):
